@@ -132,6 +132,7 @@ struct cif_s {
    sqlite3_stmt *reset_packet_num_stmt;
    sqlite3_stmt *check_item_loop_stmt;
    sqlite3_stmt *insert_value_stmt;
+   sqlite3_stmt *fill_packet_stmt;
    sqlite3_stmt *update_value_stmt;
    sqlite3_stmt *remove_packet_stmt;
 };
